@@ -28,7 +28,7 @@ def canary_double(traces):
 
 def run(tier):
     return run_queue_prop(
-        'C03', tier, [], [canary_resend, canary_double],
+        'C03', tier, ['a', 'b', 'kf1', 'kf2', 'kf3', 'kf4'] if tier == 'quick' else ['a', 'a2', 'b', 'c0', 'kf1', 'kf2', 'kf3', 'kf4'], [canary_resend, canary_double],
         rule='families: relay outcome histories (whole-message and per-recipient, >= 2 rounds, 1-4 recipients) on every '
              'backend by DFS over outcome choices; schedules of a yielding store (every storage call gated) by DFS and '
              'random walks; timer/flush/pool schedules; non-trivial = at least one partial round (some recipients '
